@@ -531,7 +531,10 @@ def run_datasets(rep, rng, n_fam):
 
 # -- endpoints
 def bad_coords(R, C):
-    return [(-1, 0), (0, -1), (R, 0), (0, C), (R + 3, C + 3), (-1, -1), (-R, 0), (0, -C), (R - 1, C), (R, C - 1)]
+    # ... and coordinates that are congruent to an in-grid value modulo 2^8 / 2^16 / 2^32 (an endpoint narrowed to a small integer type before the
+    # bounds check would pass it)
+    return [(-1, 0), (0, -1), (R, 0), (0, C), (R + 3, C + 3), (-1, -1), (-R, 0), (0, -C), (R - 1, C), (R, C - 1),
+            (256, 0), (0, 256), (256 + R - 1, C - 1), (-256, 0), (0, 65536), (2**32, 0)]
 
 
 def check_endpoint(rep, kind, conn, start, end, form, valid):
